@@ -271,10 +271,10 @@ Definition wf_list (l : inklist) : Prop := keys_nodup (l_items l).
 Lemma mem_abs : forall m k, keys_nodup m -> s_mem k (abs_items m) = items_mem k m.
 Proof. intros. unfold s_mem, items_mem. rewrite get_abs_items by assumption. reflexivity. Qed.
 
-Theorem union_refines : forall a b, wf_list a -> wf_list b ->
-  abs (list_union a b) = s_union (abs a) (abs b).
+Theorem union_refines : forall cm a b, wf_list a -> wf_list b ->
+  abs (list_union cm a b) = s_union (abs a) (abs b).
 Proof.
-  intros a b Ha Hb. unfold abs, s_union. cbn [l_items list_union].
+  intros cm a b Ha Hb. unfold abs, s_union. cbn [l_items list_union].
   apply canonical_ext; [apply abs_items_canonical|apply fold_insert_canonical, abs_items_canonical|].
   intros k. rewrite get_abs_items by (apply nodup_insert_all; exact Ha).
   rewrite items_get_insert_all by exact Hb.
@@ -296,10 +296,10 @@ Lemma nodup_fold_remove : forall (b a : items), keys_nodup a ->
   keys_nodup (fold_left (fun (m : items) (kv : listitem * Z) => items_remove (fst kv) m) b a).
 Proof. induction b as [|x r IH]; cbn; intros a H; [exact H|]. apply IH, nodup_remove, H. Qed.
 
-Theorem without_refines : forall a b, wf_list a -> wf_list b ->
-  abs (list_without a b) = s_diff (abs a) (abs b).
+Theorem without_refines : forall cm a b, wf_list a -> wf_list b ->
+  abs (list_without cm a b) = s_diff (abs a) (abs b).
 Proof.
-  intros a b Ha Hb. unfold abs, s_diff. cbn [l_items list_without].
+  intros cm a b Ha Hb. unfold abs, s_diff. cbn [l_items list_without].
   apply canonical_ext; [apply abs_items_canonical|apply canonical_filter, abs_items_canonical|].
   intros k. rewrite get_abs_items by (apply nodup_fold_remove; exact Ha).
   rewrite get_fold_remove by exact Ha.
@@ -518,7 +518,7 @@ Lemma abs_fold_all : forall ds m, Forall wf_def ds -> keys_nodup m ->
 Proof.
   unfold fold_all. induction ds as [|d r IH]; cbn [fold_left]; intros m H Hm; [reflexivity|].
   inversion H; subst. rewrite IH by (try assumption; apply nodup_insert_all; assumption). f_equal.
-  apply (union_refines (mkList m [] []) (mkList (def_items d) [] [])); [exact Hm|apply def_items_nodup; assumption].
+  apply (union_refines CopyRaw (mkList m [] []) (mkList (def_items d) [] [])); [exact Hm|apply def_items_nodup; assumption].
 Qed.
 
 Lemma s_all_abs : forall ds, Forall wf_def ds -> s_all ds = abs_items (fold_all ds []).
